@@ -1076,6 +1076,21 @@ def check_srf(case, rec):
         f"SRF at lat-lon points differs from the same field at geo_scale*unit(lat,lon) by {err:.3g} (tol {tol:.3g})",
         dict(tags, kind="srf"),
     )
+    # --- a second request on the same object for slightly moved points (closer than numpy.allclose's default window): the new points count
+    lat2 = np.clip(lat * (1.0 + 3e-6) + 1e-7, -90.0, 90.0)
+    lon2 = lon * (1.0 - 2e-6) + 2e-7
+    tt2 = tt * (1.0 + 1e-6) if T else None
+    pos2 = np.vstack([lat2, lon2] + ([tt2] if T else []))
+    iso2 = _oracle_iso(lat2, lon2, g, tt2, ta)
+    f_ll2 = lib(s_ll, pos2.copy(), _what="SRF on lat-lon points (second request)", _tags=tags)
+    f_3d2 = lib(s_3d, iso2.copy(), _what="SRF on 3-D points (second request)", _tags=tags)
+    err = float(np.max(np.abs(f_ll2 - f_3d2)))
+    rec.label("second_request_nearby_points")
+    require(
+        err <= tol,
+        f"second request on the same SRF for points moved by ~1e-6 (relative): field differs from the one at geo_scale*unit(lat,lon) of the new points by {err:.3g} (tol {tol:.3g})",
+        dict(tags, kind="srf_second_request"),
+    )
     # --- conditioned field honours the data at lat-lon points -----------------
     nc = clat.size
     cpos = pos[:, :nc]
